@@ -139,7 +139,17 @@ pub fn eval_constant(egraph: &EGraph, enode: &Expr) -> ConstValue {
     } else if let Some((op, a, b)) = enode.binary_op() {
         let (a, b) = (x(a)?, x(b)?);
         if a.is_null() || b.is_null() {
-            return Some(DataValue::Null);
+            // three-valued logic: `false AND NULL` is false, `true OR NULL` is true
+            use sqlparser::ast::BinaryOperator as Op;
+            return Some(match (&op, a, b) {
+                (Op::And, DataValue::Bool(false), _) | (Op::And, _, DataValue::Bool(false)) => {
+                    DataValue::Bool(false)
+                }
+                (Op::Or, DataValue::Bool(true), _) | (Op::Or, _, DataValue::Bool(true)) => {
+                    DataValue::Bool(true)
+                }
+                _ => DataValue::Null,
+            });
         }
         let array_a = ArrayImpl::from(a);
         let array_b = ArrayImpl::from(b);
